@@ -76,6 +76,7 @@ def spellings_ts(rng, truth, count):
               "explicit_full": rng.random() < 0.3,
               "explicit_reference": rng.random() < 0.2,
               "information": rng.random() < 0.15,
+              "odd_space": rng.random() < 0.2,
               "omit_end": rng.random() < 0.1}
         o = ["unit", "type", "fmt", "R"]
         rng.shuffle(o)
@@ -85,7 +86,7 @@ def spellings_ts(rng, truth, count):
         if j == 0:      # the plain spelling: what vnadata_save itself would write, unit Hz
             sp.update(unit="HZ", fmt="RI", case="asis", decorate=False, omit_defaults=False, crlf=False,
                       no_final_newline=False, noise=False, kw_shuffle=False, mform="FULL", order="12_21",
-                      opt_order=["unit", "type", "fmt", "R"], information=False, omit_end=False)
+                      opt_order=["unit", "type", "fmt", "R"], information=False, omit_end=False, odd_space=False)
         out.append(sp)
     return out
 
@@ -125,15 +126,148 @@ def spellings_npd(rng, truth, count):
               "omit_default_z0": rng.random() < 0.5, "j_suffix": rng.random() < 0.7,
               "case": rng.choice(["asis", "upper", "lower", "random"]), "magic": rng.random() < 0.8,
               "no_final_newline": rng.random() < 0.15,
+              "crlf": rng.random() < 0.25, "odd_space": rng.random() < 0.25,
               "extra_scalar": rng.choice([[], [], [], ["RL"], ["VSWR", "IL"]]) if truth["type"] == "S" and truth["ports"] >= 2 else []}
         if j == 0:
             sp.update(forms=["RI"], legacy_dims=False, param_sep=",", shuffle_header=False, decorate=False,
                       precision_lines=True, omit_default_z0=False, j_suffix=True, case="asis", magic=True,
-                      no_final_newline=False, extra_scalar=[])
+                      no_final_newline=False, extra_scalar=[], crlf=False, odd_space=False)
         if len(sp["forms"]) + len(sp["extra_scalar"]) < 2 and sp["param_sep"] != ",":
             sp["param_sep"] = ","
         out.append(sp)
     return out
+
+
+
+ODD_SEPS = ["\x0c", "\x0b", "\r", " \x0c", "\x0b ", "\t\r"]
+
+
+def npd_white_space(text, sp, rng):
+    """The same NPD file with other white space: CR LF line ends, and form feed / vertical tab / a lone CR where the format
+    has a separator (between the fields of a line and after its last field).  isspace() is what the loader's scanner
+    uses to separate fields, so each is an equivalent spelling.  Lines that carry a '#' comment are left alone (inside a
+    comment every byte is the comment's)."""
+    if sp.get("odd_space"):
+        out = []
+        for ln in text.split("\n"):
+            body = ln.lstrip(" \t")
+            plain = body != "" and "#" not in body[1:] and not body.startswith("#NPD") and (body[0] != "#" or body.startswith("#:"))
+            if plain:
+                toks = ln.split()
+                ln = toks[0] + "".join(rng.choice(ODD_SEPS + [" ", "\t"]) + t for t in toks[1:]) + rng.choice(["", "\x0c", "\x0b", "\r", " \x0b"])
+            out.append(ln)
+        text = "\n".join(out)
+    if sp.get("crlf"):
+        text = text.replace("\n", "\r\n")
+    return text
+
+
+def ts_white_space(text, sp, rng):
+    """The same Touchstone file with form feed / vertical tab / CR in place of some blanks between tokens (outside
+    [keywords] and comments): next_token skips every isspace() byte but the newline."""
+    if not sp.get("odd_space"):
+        return text
+    out = []
+    in_br = in_c = False
+    for ch in text:
+        if in_c:
+            in_c = ch != "\n"
+        elif in_br:
+            in_br = ch not in "]\n"
+        elif ch == "!":
+            in_c = True
+        elif ch == "[":
+            in_br = True
+        elif ch == " " and rng.random() < 0.3:
+            ch = rng.choice(ODD_SEPS)
+        out.append(ch)
+    return "".join(out)
+
+
+def npd_view(truth):
+    """A Touchstone ground truth as the NPD generator wants it (one real reference impedance per port)."""
+    t = dict(truth)
+    ref = truth["reference"] or [truth["R"]] * truth["ports"]
+    t["z0"] = [complex(x, 0) for x in ref]
+    t["fz0"] = None
+    t["zmode"] = "real"
+    return t
+
+
+def history_cases(rng, nsets):
+    """Equivalent spellings of one data set (Touchstone 1, Touchstone 2, NPD; file names .sNp / .ts / .npd) loaded one after
+    the other into the SAME object, every ordered pair, and into an object whose file type was set or that was saved
+    before: what a load gives must not depend on what the object held.  Yields (cid, prelude commands, kind, truth, sp,
+    text, name): the commands load `text` last."""
+    for k in range(nsets):
+        truth = gen_truth_ts(rng, rng.choice([0, 1, 2, 5, 6, 7, 10, 11, 12, 15, 16, 17]))
+        truth["reference"] = None
+        n = truth["ports"]
+        sps = spellings_ts(rng, truth, 3)
+        sps[1]["version"], sps[2]["version"] = 1, 2
+        v1 = ("ts", truth, sps[1], ts_white_space(D.gen_touchstone(truth, sps[1], rng), sps[1], rng), "x.s%dp" % n)
+        v2 = ("ts", truth, sps[2], ts_white_space(D.gen_touchstone(truth, sps[2], rng), sps[2], rng), rng.choice(["x.ts", "y.TS"]))
+        tn = npd_view(truth)
+        spn = spellings_npd(rng, tn, 2)[1]
+        npd = ("npd", tn, spn, npd_white_space(D.gen_npd(tn, spn, rng), spn, rng), "x.npd")
+        files = {"v1": v1, "v2": v2, "npd": npd}
+        for a in files:
+            for b in files:
+                if a == b:
+                    continue
+                ka, ta, spa, texta, namea = files[a]
+                kb, tb, spb, textb, nameb = files[b]
+                pre = ["load 0 %s %s" % (namea, texta.encode("latin-1").hex())]
+                if rng.random() < 0.3:
+                    pre.append("save 0 %s" % namea)
+                yield ("h%d_%s_%s" % (k, a, b), pre, kb, tb, spb, textb, nameb)
+        for b in files:
+            kb, tb, spb, textb, nameb = files[b]
+            other = D.FT_NPD if kb == "ts" else rng.choice([D.FT_TS1, D.FT_TS2])
+            yield ("h%d_ft_%s" % (k, b), ["filetype 0 %d" % other], kb, tb, spb, textb, nameb)
+
+
+
+def kw_order_cases(rng, count):
+    """Version-2 files whose keyword lines stand in a random order (any permutation, so also the orders the loader must
+    refuse: [Reference] before [Number of Ports]), sometimes with a line repeated, with information blocks and a noise
+    block.  Yields (cid, truth, text, accepted) where `accepted` is the verdict of the rules of Files/TsV2Order.v kw_step."""
+    for k in range(count):
+        truth = gen_truth_ts(rng, rng.choice([0, 1, 2, 5, 6, 7, 10, 11, 12]))
+        n = truth["ports"]
+        ref = [rng.choice([25.0, 50.0, 75.0]) for _ in range(n)] if rng.random() < 0.6 else None
+        truth["reference"] = ref
+        R = truth["R"]
+        nn = rng.choice([None, None, 0, 1, 2])
+        lines = [("ports", "[Number of Ports] %d" % n), ("nfreq", "[Number of Frequencies] %d" % len(truth["freqs"]))]
+        if n == 2:
+            lines.append(("order", "[Two-Port Order] 12_21"))
+        if rng.random() < 0.5:
+            lines.append(("matrix", "[Matrix Format] Full"))
+        if ref is not None:
+            lines.append(("ref", "[Reference] " + " ".join(repr(x) for x in ref)))
+        if nn is not None:
+            lines.append(("nnoise", "[Number of Noise Frequencies] %d" % nn))
+        for _ in range(rng.choice([0, 0, 1, 2])):
+            lines.append(("info", rng.choice(["[Begin Information]\n[End Information]", "[Begin Information]"])))
+        dup = rng.random() < 0.25
+        if dup:
+            lines.append(rng.choice([l for l in lines if l[0] != "info"]))
+        rng.shuffle(lines)
+        kinds = [l[0] for l in lines]
+        accepted = kinds.count("ports") == 1 and kinds.count("ref") <= 1 and \
+            ("ref" not in kinds or kinds.index("ports") < kinds.index("ref"))
+        out = ["[Version] 2.0", "# Hz %s RI R %r" % (truth["type"], R)] + [l[1] for l in lines] + ["[Network Data]"]
+        for f, m in zip(truth["freqs"], truth["mats"]):
+            # version 2 stores Z / Y / H / G data as actual values
+            out.append(" ".join([repr(f)] + ["%r %r" % (x.real, x.imag) for x in m]))
+        if nn is not None:
+            out.append("[Noise Data]")
+            for i in range(nn):
+                out.append("%r 1.5 0.5 %r 0.25" % (truth["freqs"][0] * (i + 1), 10.0 * i))
+        if rng.random() < 0.8:
+            out.append("[End]")
+        yield ("kw%d" % k, truth, "\n".join(out) + "\n", accepted)
 
 
 def dc_start_cases(rng):
@@ -228,7 +362,7 @@ def run(ctx):
             truth = gen_truth_ts(ctx.rng, k)
             sps = spellings_ts(ctx.rng, truth, per)
             for j, sp in enumerate(sps):
-                text = D.gen_touchstone(truth, sp, ctx.rng)
+                text = ts_white_space(D.gen_touchstone(truth, sp, ctx.rng), sp, ctx.rng)
                 name = ("x.s%dp" % truth["ports"]) if (sp["version"] == 1 and ctx.rng.random() < 0.7) else \
                     ctx.rng.choice(["x.ts", "x.TS", "x.s2p", "x.s%dp" % truth["ports"]])
                 cid = "t%d_%d" % (k, j)
@@ -237,7 +371,7 @@ def run(ctx):
             truth = gen_truth_npd(ctx.rng, k)
             sps = spellings_npd(ctx.rng, truth, per)
             for j, sp in enumerate(sps):
-                text = D.gen_npd(truth, sp, ctx.rng)
+                text = npd_white_space(D.gen_npd(truth, sp, ctx.rng), sp, ctx.rng)
                 name = ctx.rng.choice(["x.npd", "x.npd", "x.NPD", "plain"])
                 cid = "n%d_%d" % (k, j)
                 info[cid] = ("npd", truth, sp, text, name)
@@ -247,6 +381,11 @@ def run(ctx):
         hexs = text.encode("latin-1").hex()
         cases.append((cid, ["new 0 -1 0 0 0", "load 0 %s %s" % (name, hexs), "dump 0"]))
         files.append((cid, kind, text))
+    # the same spellings loaded into an object with a history (an earlier load of another spelling, a save, a set file type)
+    hist = {}
+    for cid, pre, kind, truth, sp, text, name in history_cases(ctx.rng, 4 if ctx.tier == "quick" else 20):
+        hist[cid] = (kind, truth, sp, text, name, pre)
+        cases.append((cid, ["new 0 -1 0 0 0"] + pre + ["load 0 %s %s" % (name, text.encode("latin-1").hex()), "dump 0"]))
     results, faults = H.run(cases, timeout=1200)
     for f in faults:
         sig = vplib.asan_signature(f["stderr"]) or {"kind": "fault", "error": "exit %s" % f["rc"], "function": None}
@@ -295,6 +434,36 @@ def run(ctx):
             ctx.violation(v[0], v[1], {"file": text, "filename": name, "spelling": sp,
                                        "truth": {k2: repr(v2) for k2, v2 in truth.items()},
                                        "harness_output": [l[:1500] for l in lines]})
+    hbad = 0
+    for cid, (kind, truth, sp, text, name, pre) in hist.items():
+        lines = results.get(cid)
+        if lines is None or any(l.startswith("FAULT") for l in lines):
+            continue
+        ctx.count(None)
+        ld = [l for l in lines if l.startswith("LOAD")][-1]
+        head, _, msg = ld.partition(" # ")
+        rc = int(head.split()[1])
+        v = None
+        if rc != 0:
+            v = ({"kind": "history_changes_load", "class": "rejected", "filetype": kind},
+                 "vnadata_fload into a re-used object (%s) rejects the %s file %s that a fresh object loads: %s"
+                 % ("; ".join(c.split()[0] + " " + c.split()[2][:12] for c in pre), kind, name, msg))
+        else:
+            L = D.parse_dump([l for l in lines if l.startswith("DUMP")][-1])
+            r = compare(truth, L, kind, sp)
+            if r is not None:
+                v = ({"kind": "history_changes_load", "class": r[0], "filetype": kind},
+                     "%s file %s loaded into a re-used object: %s" % (kind, name, r[1]))
+        if v is None:
+            ctx.nontrivial.add(cid)
+            ctx.traces_validated += 1
+            continue
+        hbad += 1
+        if hbad <= 3:
+            ctx.violation(v[0], v[1], {"file": text, "filename": name, "before": pre, "spelling": sp,
+                                       "harness_output": [l[:1500] for l in lines]})
+    ctx.obligation("tie:spellings_load_alike_into_reused_object", hbad == 0, "%d of %d histories differ" % (hbad, len(hist)))
+    ctx.extra["histories"] = len(hist)
     ctx.extra["data_sets"] = nsets
     ctx.extra["spellings"] = len(info)
     ctx.extra["violation_classes"] = dict((str(dict(k)), v) for k, v in classes.items())
@@ -309,6 +478,40 @@ def run(ctx):
                            pick=lambda cid: (0, other[sum(map(ord, cid)) % len(other)]))
     tstone_ties.tie_npd_scan(ctx, M, [(cid, text) for cid, kind, text in files if kind == "npd"], "spellings")
     tstone_ties.tie_decorations(ctx, M, files, "spellings", 120 if ctx.tier == "quick" else 1000)
+    # ---- version-2 keyword lines in every order, accepted and refused (Files/TsV2Order.v), information and noise blocks
+    kw = list(kw_order_cases(ctx.rng, 150 if ctx.tier == "quick" else 1500))
+    kres, kfaults = H.run([(cid, ["new 0 -1 0 0 0", "load 0 x.ts %s" % text.encode("latin-1").hex(), "dump 0"])
+                           for cid, truth, text, acc in kw], timeout=900)
+    tstone_ties.tie_loads(ctx, M, [(cid, "x.ts", text) for cid, truth, text, acc in kw], kres, "keyword_orders")
+    kbad = 0
+    sp2 = {"version": 2}
+    for cid, truth, text, acc in kw:
+        lines = kres.get(cid)
+        if lines is None or any(l.startswith("FAULT") for l in lines):
+            continue
+        ctx.count(cid)
+        rc = int([l for l in lines if l.startswith("LOAD")][0].split()[1])
+        what = None
+        if (rc == 0) != acc:
+            what = "vnadata_fload %s a file whose keyword order Files/TsV2Order.v kw_step %s" % (
+                "loads" if rc == 0 else "rejects", "refuses" if rc == 0 else "accepts")
+        elif rc == 0:
+            r = compare(truth, D.parse_dump([l for l in lines if l.startswith("DUMP")][0]), "ts", sp2)
+            if r is not None:
+                what = "keyword order / noise block changes the loaded data: %s" % r[1]
+        ctx.traces_validated += 1
+        if what:
+            kbad += 1
+            if kbad <= 3:
+                ctx.violation({"kind": "keyword_order", "filetype": "ts", "accepted_by_model": acc}, what,
+                              {"file": text, "harness_output": [l[:1500] for l in lines]})
+    for f in kfaults:
+        ctx.violation(vplib.asan_signature(f["stderr"]) or {"kind": "fault", "error": "exit %s" % f["rc"], "function": None},
+                      "loader died on a keyword-order file (case %s): %s" % (f["id"], f["stderr"][-300:]), {"stderr": f["stderr"][-3000:]})
+    ctx.obligation("tie:keyword_orders", kbad == 0 and not kfaults, "%d of %d keyword orders differ" % (kbad, len(kw)))
+    ctx.extra["keyword_orders"] = {"files": len(kw), "accepted": sum(1 for x in kw if x[3])}
+    # ---- RI / MA / DB: convert_value_pair against its extracted model and against the ground truth
+    c08_ties.format_tie(ctx, H)
     for b in broken:
         ctx.unproved("C08", b, "%d spellings of %d data sets" % (len(info), nsets))
 
